@@ -92,7 +92,9 @@ def harness_problems(results):
 
 
 def fingerprint(case, results):
-    return digest({"case": digest(case), "results": results})
+    # variants that run on the real multiprocessing.Pool (fidelity cross-check) are not deterministic by nature
+    keep = [r for v, r in zip(case["variants"], results) if not v.get("nondeterministic")]
+    return digest({"case": digest(case), "results": keep})
 
 
 # ---- known findings ----------------------------------------------------------------------
@@ -501,6 +503,10 @@ def _explore(farm, mod, tier, verif_seed, budget_s, n_cases, fingerprints_out, t
                     cov.extra.setdefault("_survey", {}).setdefault(v["sig"], [0, c["seed"], v.get("detail", "")[:600]])[0] += 1
                 continue
             for v in vs:
+                if "REAL-POOL-FIDELITY" in v["sig"]:
+                    # the stub pool and the real pool disagree: the harness is wrong, not the property
+                    harness.append((c["seed"], f"FIDELITY {v['sig']}: {v.get('detail', '')[:600]}"))
+                    continue
                 f = match_finding(findings, v["sig"])
                 if f:
                     known_seen.setdefault(f["signature"], [f, 0])[1] += 1
